@@ -110,3 +110,64 @@ Example C17_nonvacuous :
   = Some [(1, (1, [49%N])); (3, (3, [34%N])); (4, (4, [97%N])); (6, (6, [92%N; 40%N])); (7, (7, [49%N])); (8, (8, [41%N]));
           (9, (9, [34%N])); (9, (9, []))]%nat.
 Proof. vm_compute. reflexivity. Qed.
+
+(* PART 3: bytes.  The lexer model and the operator-precedence parser together, on the token alphabet of the
+   operator sublanguage: atoms (identifiers that are not keywords), the 24 binary operators, '(' and ')'. *)
+From Verif Require Import c09.Run c09.RespaceProofs.
+
+(* Whitespace and comments are irrelevant.  A source is a list of (separator, token) items followed by a final
+   separator; a separator is any sequence of whitespace bytes and comments (# ... LF; the comment body is any
+   bytes except LF, CR and backslash, NUL included); the separator before a token may be empty only next to
+   '(' ')' ',' or in front of the first token ([items_ok]).  For every such source the lexer model delivers
+   exactly the token kinds and texts of the items, then eof ... *)
+Theorem C09_respace_tokens : forall (items : list item) (final : sep),
+  items_ok items = true -> sep_ok final = true ->
+  option_map (map proj) (tokenize (render items final)) = Some (map expected items ++ [(KEOF, [])]).
+Proof. exact respace_tokens. Qed.
+Print Assumptions C09_respace_tokens.
+
+(* ... hence two spacings of the same token sequence give the same AST (or are both rejected). *)
+Theorem C09_respace : forall (items1 items2 : list item) (final1 final2 : sep),
+  map snd items1 = map snd items2 ->
+  items_ok items1 = true -> items_ok items2 = true -> sep_ok final1 = true -> sep_ok final2 = true ->
+  model_parse true (render items1 final1) = model_parse true (render items2 final2).
+Proof. exact respace_invariant. Qed.
+Print Assumptions C09_respace.
+
+(* The round trip on bytes.  [print_bytes gen_op_bytes] is Query.writeTo / Term.writeTo / Operator.String()
+   for this sublanguage (compared with String() on every case of the ops stream).  For every AST e of the parser's
+   image (wf) whose atoms are identifiers, the printed bytes lex and parse back to e.  Unbounded: all e. *)
+Theorem C09_bytes_roundtrip : forall e : expr (list N),
+  atoms_ok e = true -> wf (list N) gen_lvl gen_asc e ->
+  model_parse true (print_bytes gen_op_bytes e) = Some (Some e).
+Proof. exact bytes_roundtrip. Qed.
+Print Assumptions C09_bytes_roundtrip.
+
+(* non-vacuity: `a # c<NUL><LF> //=(b ,c)<TAB>` is such a source *)
+Example C09_respace_nonvacuous :
+  let items := [([], OAtom [97%N]); ([Ws 32%N; Cm [32%N; 99%N; 0%N]], OOp OpUpdateAlt); ([], OLP); ([], OAtom [98%N]);
+                ([Ws 32%N], OOp OpComma); ([], OAtom [99%N]); ([], ORP)] in
+  items_ok items = true /\ sep_ok [Ws 9%N] = true /\
+  render items [Ws 9%N] = [97; 32; 35; 32; 99; 0; 10; 47; 47; 61; 40; 98; 32; 44; 99; 41; 9]%N /\
+  model_parse true (render items [Ws 9%N]) =
+    Some (Some (Bin OpUpdateAlt (Atom [97%N]) (Paren (Bin OpComma (Atom [98%N]) (Atom [99%N]))))).
+Proof. vm_compute. repeat split; reflexivity. Qed.
+
+(* PARTIAL.  The full property, for the whole surface grammar, in terms of the implementation's own functions
+   (Parse : bytes -> AST or error, String : AST -> bytes, tokens : the token sequence of a source): *)
+Section Full.
+  Variables (Query Token : Type) (Parse : list N -> option Query) (String : Query -> list N)
+            (tokens : list N -> option (list Token)).
+  Definition C09_full : Prop :=
+    (forall s1 s2, tokens s1 <> None -> tokens s1 = tokens s2 -> Parse s1 = Parse s2) /\
+    (forall src q, Parse src = Some q -> Parse (String q) = Some q).
+End Full.
+(* Proved above: both conjuncts for the operator sublanguage over identifier atoms with the lexer model and the
+   precedence tables regenerated from the current sources (C09_respace, C09_bytes_roundtrip, C09_print_parse,
+   C09_parse_iff), the binding order of all operator pairs (C09_binding_as_jq, C09_prec), and totality and
+   offsets of the lexer on all byte strings (C08_lex_total, C17_lex_offset).
+   Missing for C09_full: a model of the goyacc automaton of parser.go with its ~150 actions and of every
+   writeTo method for terms, suffixes, strings with interpolation, patterns, def/reduce/foreach/if/try/label,
+   modules and imports; there the property is checked by the implementation-only oracles of checks/c09.py
+   (round trip with reflect.DeepEqual, re-spacing invariance) on generated programs, and unary sign/suffix
+   binding is not stated as a theorem. *)
